@@ -1,5 +1,6 @@
 import PilotaModel.Lemmas.PbLimit
 import PilotaModel.Lemmas.PbLadder
+import PilotaModel.Lemmas.PbGroup
 /-
   C10 — protobuf decoders are total and bounded on arbitrary bytes.
   Property theorems only; helper lemmas live in `PilotaModel/Lemmas/Pb*.lean`.
@@ -52,6 +53,11 @@ theorem merge_total (s : Schema) (ctx i : Nat) (m : Slots) (bs : Bytes) : total 
 /-- `Message::decode_length_delimited`. -/
 theorem length_delimited_total (s : Schema) (i : Nat) (bs : Bytes) : total (decodeLengthDelimited s i bs) :=
   total_of_good _ (decodeLengthDelimited_good s i bs)
+
+/-- `group::merge` (runtime API) on any bytes, any tag, any wire type, any budget. -/
+theorem group_total (s : Schema) (ctx tag : Nat) (wt : WireType) (i : Nat) (m : Slots) (bs : Bytes) :
+    total (groupMerge s ctx tag wt i m bs) :=
+  total_of_good _ (groupMerge_good s ctx tag wt i m bs)
 
 /-- the emitted `merge_field` itself, for any tag and wire type; a success never leaves more
 input than it was given (the loops around it make progress). -/
